@@ -67,8 +67,21 @@ def dedupAdj : List Vec → List Vec
   | [a] => [a]
   | a :: b :: l => if a = b then dedupAdj (b :: l) else a :: dedupAdj (b :: l)
 
+/-- Insert into a lexicographically sorted list. -/
+def insertLex (x : Vec) : List Vec → List Vec
+  | [] => [x]
+  | y :: ys => if lexLe x y then x :: y :: ys else y :: insertLex x ys
+
+/-- Insertion sort (structurally recursive, so that small instances can be checked by `decide`). -/
+def isort : List Vec → List Vec
+  | [] => []
+  | x :: xs => insertLex x (isort xs)
+
 /-- Canonical form of a *set* of vectors: sorted lexicographically, duplicates removed. -/
-def canon (l : List Vec) : List Vec := dedupAdj (l.mergeSort lexLe)
+def canon (l : List Vec) : List Vec := dedupAdj (isort l)
+
+/-- The same canonical form computed with merge sort (`O(n log n)`; proved equal to `canon`). -/
+def canonFast (l : List Vec) : List Vec := dedupAdj (l.mergeSort lexLe)
 
 /-- **The Pareto front** of `rows` as a canonical set of vectors: rows not strictly dominated by any row. -/
 def front (rows : List Vec) : List Vec := canon (rows.filter (nondom leqAll rows))
@@ -81,7 +94,7 @@ def sweep : List Vec → List Vec → List Vec
   | acc, r :: rest => if acc.any (fun a => leqAll a r) then sweep acc rest else sweep (r :: acc) rest
 
 /-- Fast front: `O(n log n + n·|front|)`. Proved equal to `front`. -/
-def frontFast (rows : List Vec) : List Vec := sweep [] (canon rows)
+def frontFast (rows : List Vec) : List Vec := sweep [] (canonFast rows)
 
 /-- For each row, the index of some row strictly dominating it (the first one), or `none`. -/
 def dominatedBy (rows : List Vec) : List (Option Nat) :=
